@@ -11,8 +11,11 @@
      - acceptance does not depend on the order (C01_acceptance_order_independent) and the election never
        errs (C01_election_never_errs): the "accept every event" clause.
    For the implementation the statement is C01_full; it is proved FROM impl_refines_spec (model run =
-   reference; the L1 invariant of DESIGN 5 C10 for model/AbftRun.v), which is NOT proved: the
-   implementation-level claim is established by testing (5+ real instances per scenario). *)
+   reference; the L1 invariant of DESIGN 5 C10 for model/AbftRun.v).  That refinement is PROVED by worker link
+   (proofs/Link*.v) under explicit side conditions; the resulting theorems for the model of the code are
+   further down: C01_agreement_for_the_model(_any_order), ..._across_epochs, C01_process_only_instances_agree,
+   C01_agreement_across_epochs_any_policy.  The step from the model to the Go code is the hand port +
+   testing (5+ real instances per scenario). *)
 From Coq Require Import NArith List.
 From LV Require Import model.VecIndex lib.WSumBft spec.ElectionSpec proofs.BftCore proofs.BftElection
   proofs.BftMono proofs.BftGraph proofs.BftMain proofs.BftRun proofs.BftFcSpec proofs.BftAccept proofs.BftProps.
